@@ -246,3 +246,28 @@ Theorem C19_full_premises_satisfiable :
   /\ vclosed hxW (vknown st0) /\ btc_clock_ok hxW.
 Proof. exact hx_full_premises. Qed.
 Print Assumptions C19_full_premises_satisfiable.
+
+(** * The honest construction is the shortest connecting one (Rules/C19Minimal.v) — the construction that the
+    correspondence stage runs against MockMiner::createVTB (extracted [honest_vtbs] vs the payloads the library built) *)
+From VB Require Import Rules.C19Minimal.
+
+(** an honestly built VTB sits in the chosen containing block, endorses the block of the containing block's own chain
+    at the chosen height, its BTC context starts right after a block the chain references at or below the containing
+    block, ends with the block of proof, and re-sends NO block the chain already references there *)
+Theorem C19_honest_vtb_context_minimal :
+  forall W R sp w,
+    honest_vtb W R sp = Some w ->
+    w_containing w = vs_cont sp
+    /\ ancestor_at (vbks W) (vs_cont sp) (vs_eh sp) = Some (w_endorsed w)
+    /\ btc_ref_ok W R (w_conn w) (vs_cont sp) = true
+    /\ exists pre, w_bctx w = pre ++ [vs_bop sp] /\ forall b, In b pre -> btc_ref_ok W R b (vs_cont sp) = false.
+Proof. exact honest_vtb_context_minimal. Qed.
+Print Assumptions C19_honest_vtb_context_minimal.
+
+(** witness: two VTBs of one block in the example world; the second one skips the two BTC blocks the first made known *)
+Theorem C19_honest_vtb_context_minimal_satisfiable :
+  honest_vtbs hxW (mkSt [0; 1; 2; 3; 4; 5] [(0, -1)] [] [])
+              [mkVtbSpec 11 3 2 2; mkVtbSpec 12 4 2 4]
+  = Some [mkVtb 11 2 3 0 [1; 2]; mkVtb 12 2 4 2 [3; 4]].
+Proof. exact honest_vtb_context_minimal_ex. Qed.
+Print Assumptions C19_honest_vtb_context_minimal_satisfiable.
